@@ -220,6 +220,8 @@ func famRandom(tw *traceWriter, r *rand.Rand, n int) { famRandomCfg(tw, r, n, ge
 func famCatch(tw *traceWriter, r *rand.Rand, n int) { famRandomCfg(tw, r, n, genCfg{catchPct: 60}) }
 
 func famRandomCfg(tw *traceWriter, r *rand.Rand, n int, g genCfg) {
+	genNaN = true
+	defer func() { genNaN = false }()
 	for i := 0; i < n; i++ {
 		g.maxDepth = 2 + r.Intn(2)
 		mode := pick(r, []string{"parse", "parse", "validate"})
@@ -231,7 +233,7 @@ func famRandomCfg(tw *traceWriter, r *rand.Rand, n int, g genCfg) {
 		}
 		c := &Case{ID: fmt.Sprintf("r%d", i), Mode: mode, Fe: "map", Schema: sch}
 		if mode == "parse" && i%3 == 0 {
-			c.Pre = 1
+			c.Pre = 1 + (i/3)%2
 		}
 		if mode == "parse" {
 			c.Input = genParseInput(r, sch, "map")
